@@ -118,6 +118,13 @@ func rulesC14(c *Ctx, r *Report) {
 		r.analysed(fname(an))
 		a := newFuncVSA(c, an, byteDomain())
 		a.mapKeys[ag] = keys
+		// the parameter's own cell, when its address is taken (case fold through a pointer helper)
+		instrs(an, func(in ssa.Instruction) {
+			if al, ok := in.(*ssa.Alloc); ok && cellValue(al) == ssa.Value(an.Params[0]) {
+				cellAl := al
+				a.isCell = func(addr ssa.Value) bool { return addr == ssa.Value(cellAl) }
+			}
+		})
 		a.run()
 		if a.err != "" {
 			r.undecided("VSA-AN", fname(an), "transfer function", c.pos(an.Pos()), a.err)
